@@ -334,6 +334,42 @@ static void nc_history(run_state& rs, session& s, verif::prng& r, unsigned long 
     if (s.can_answer_late() && r.chance(1, 3)) { s.user_answer_late(r.chance(2, 3)); s.poll(); }
 }
 
+// numeric comparison, two attempts on one connection: attempt 1 gets as far as a verified DHKey check while the user has not
+// answered and is then aborted; attempt 2 goes up to Pairing Random, the user says yes BEFORE the central's DHKey check, the
+// link layer polls.  Nothing of attempt 1 may count for attempt 2.
+static void two_attempt_history(run_state& rs, session& s, verif::prng& r, unsigned long long index)
+{
+    sm_port& port = *rs.port;
+    s.connect(static_cast<int>(r.below(session::PEERS)));
+    context c = random_context(port, r, true);
+    c.authreq |= 0x08; c.oobf = 0; c.local_oob = false; c.lesc_choice = IP_JW;
+    c.rio = (index & 4) ? 1 : 4;
+    c.policy = U_NEVER;                                   // the question stays open
+    s.new_context(c);
+    mon("C32").cls("numeric_comparison:second_attempt_after_aborted_first");
+    if (!run_valid(s, r, MS_S_RAND, false)) return;
+    s.send(s.build(K_DHKEY, C_VALID), K_DHKEY, C_VALID);  // right Ea while the user is being asked
+    s.poll();
+    // abort attempt 1
+    switch ((index / 8) % 3) {
+    case 0: s.send(s.build(K_REQ_LESC, C_VALID), K_REQ_LESC, C_VALID); break;              // refused: pairing in progress
+    case 1: s.send(s.build(K_UNKNOWN, C_VALID), K_UNKNOWN, C_VALID); break;
+    default: if (s.user_pending()) s.user_answer(false); break;
+    }
+    s.poll();
+    if (s.state() != MS_IDLE) return;
+    // attempt 2
+    context c2 = c;
+    c2.policy = U_ASYNC_YES_BEFORE;
+    s.new_context(c2);
+    if (!run_valid(s, r, MS_S_RAND, false)) return;
+    if (s.user_pending()) s.user_answer(true);
+    s.poll(); s.poll();
+    if (s.state() == MS_S_RAND && r.chance(1, 2)) { s.send(s.build(K_DHKEY, C_VALID), K_DHKEY, C_VALID); s.poll(); }
+    if (s.initiator_aborts()) { s.clear_abort(); s.send_pairing_failed(0x0b); }
+    if (s.completed()) after_completion(s, r);
+}
+
 static void random_history(run_state& rs, session& s, verif::prng& r)
 {
     sm_port& port = *rs.port;
@@ -384,7 +420,7 @@ static void run_histories(run_state& rs, unsigned long long ops)
         s.history_no = h;
         s.set_local_address(r.chance(1, 2));
         if (type < 2) systematic_history(rs, s, r, si);
-        else if (type == 3 && nc_possible) nc_history(rs, s, r, ni);
+        else if (type == 3 && nc_possible) { if (ni % 4 == 3) two_attempt_history(rs, s, r, ni); else nc_history(rs, s, r, ni); }
         else random_history(rs, s, r);
         if (samples < 3 && s.completed()) {
             ++samples;
